@@ -253,7 +253,7 @@ EnvsA == {[FS |-> a, FC |-> b, H5 |-> c, BORN |-> FALSE] : a \in {0, 1, 2}, b \i
 (* run B: NAC chain (dataset / force constants fixed) *)
 ObjsB == {[cell |-> Cell0, calc |-> c, ds |-> [type |-> 1, forces |-> TRUE, energies |-> FALSE], fc |-> "none", nac |-> n] :
             c \in {"none", "qe"}, n \in NacAll}
-StsB == {[fs |-> "unset", disp |-> "unset", fc |-> "unset", born |-> a, eps |-> b] : a \in Tri, b \in Tri}
+StsB == {[fs |-> x, disp |-> y, fc |-> "unset", born |-> a, eps |-> b] : a \in Tri, b \in Tri, x \in %(swb)s, y \in %(swb)s}
 ArgsB == {[isCompact |-> TRUE, produceFc |-> TRUE, isNac |-> a, nacArg |-> b, bornFile |-> c, fsFile |-> 0, fcFile |-> "none", calcArg |-> e] :
             a \in B, b \in B, c \in B, e \in {"none", "vasp", "qe"}}
 EnvsB == {[FS |-> 0, FC |-> "none", H5 |-> "none", BORN |-> a] : a \in B}
@@ -290,11 +290,11 @@ def model_layer(ctx):
     factorised into the dataset/force-constants chain (A) and the NAC chain (B), which share no variable."""
     if ctx.quick:
         par = dict(calcs='{"none"}', calcargs='{"none"}', sw='{"unset", "F"}', fcfiles='{"none", "h5C"}',
-                   h5='{"none", "full"}')
+                   h5='{"none", "full"}', swb='{"unset"}')
         compsA = '{"F"}'
     else:
-        par = dict(calcs='{"none", "qe"}', calcargs='{"none", "vasp"}', sw='Tri', fcfiles='{"none", "txtF", "txtC", "h5F", "h5C"}',
-                   h5='{"none", "full", "compact"}')
+        par = dict(calcs='{"none", "qe"}', calcargs='{"none", "vasp"}', sw='{"unset", "F"}',
+                   fcfiles='{"none", "txtF", "txtC", "h5F", "h5C"}', h5='{"none", "full", "compact"}', swb='Tri')
         compsA = '{"F", "xz"}'
     mc = MC_MODEL % par
     inv = "\n".join("INVARIANT " + i for i in REQ_INVS)
@@ -378,6 +378,11 @@ def text_layer(ctx, col):
     finally:
         shutil.rmtree(tmp, ignore_errors=True)
     ctx.extra["codec_files"] = sorted(set(outcomes))
+    for name, status in sorted(set(outcomes)):
+        if status.startswith("write-raised") or name.endswith("/layout"):
+            ctx.violation("text:%s:Writer" % name.replace("/big", ""),
+                          "C16 the real writer failed or wrote a file that does not follow the documented layout: %s (%s)" % (name, status),
+                          dict(file=name, outcome=status))
     evs = col.events
     limit = 6000 if ctx.quick else 45000
     if len(evs) > limit:
@@ -552,6 +557,10 @@ def codec_layer(ctx, col):
             seen.add(key)
             ctx.violation(key, "C16 %s fails on the real code (%s)" % (name, e.get("route")), dict(invariant=name, event=e))
     bevs = C.born_events(nprng, 24 if ctx.quick else 300, col=col)
+    for route, err in C.ERRORS:
+        ctx.violation("codec:%s:Raised" % route, "C16 phonopy raised where the specification expects success (%s): %s" % (route, err),
+                      dict(route=route, error=err))
+    del C.ERRORS[:]
     for e in bevs:
         ctx.count(("born", to_tla(e["gt"]), to_tla(e["ord"])))
     ctx.traces += len(bevs)
